@@ -10,3 +10,4 @@ CONSTANTS
   Resizes <- CtxLeanResizes
   MaxDepth = 6
   Emit = TRUE
+  CheckDump = FALSE
